@@ -30,8 +30,9 @@ def pad (w : Nat) (n : Nat) : List Char := padLeft w '0' (natToText n)
 /-- timestamp ifx from a packed stamp `YYYYMMDDhhmmss`.
     fmt 0: `r%Y-%m-%d_%H-%M-%S` (the standard format); fmt 1: `r%Y%m%d-%H%M%S`;
     fmt 2: `r%Y-%m-%d_%H-%M-%S_x` (longer than 20); fmt 3: `r%d-%m-%Y_%H-%M-%S` (day first: a
-    legal format whose TEXT order is not the TIME order); the year is printed with at least 4
-    digits. -/
+    legal format whose TEXT order is not the TIME order); fmt 4: `r%Y-%m-%d` (coarser than a
+    second: the stamps handed to the model are truncated to the day by the driver, so that equal
+    names are equal stamps); the year is printed with at least 4 digits. -/
 def renderStamp (fmt : Nat) (k : Nat) : List Char :=
   let y := k / 10000000000
   let mo := k / 100000000 % 100
@@ -45,6 +46,7 @@ def renderStamp (fmt : Nat) (k : Nat) : List Char :=
          pad 2 mi ++ ['-'] ++ pad 2 s ++ "_x".toList
   | 3 => ['r'] ++ pad 2 d ++ ['-'] ++ pad 2 mo ++ ['-'] ++ pad 4 y ++ ['_'] ++ pad 2 h ++ ['-'] ++
          pad 2 mi ++ ['-'] ++ pad 2 s
+  | 4 => ['r'] ++ pad 4 y ++ ['-'] ++ pad 2 mo ++ ['-'] ++ pad 2 d
   | _ => ['r'] ++ pad 4 y ++ ['-'] ++ pad 2 mo ++ ['-'] ++ pad 2 d ++ ['_'] ++ pad 2 h ++ ['-'] ++
          pad 2 mi ++ ['-'] ++ pad 2 s
 
